@@ -31,6 +31,7 @@ EXPLANATION = (
     "SIB-2: the closed-shell starting density of rhf.optimize equals the sum of the two spin blocks "
     "uhf.optimize starts from when both sectors hold the same orbitals (occupation 2). KEYS-1: optimize "
     "rewrites no wave_data key the propagation builders read. "
+    ' SYM-1: the Fock build is symmetric in h1 (see C06). SIB-2: the initial density of the closed-shell and of the unrestricted SCF are siblings (sum of the spin blocks). '
 )
 NOT_DECIDED = "SCF convergence, the fixed-point property, agreement with an independent solver, non-degenerate derivative values."
 TECHNIQUE = "static analysis: reaching-definition guard-chain check, def-use whitelist from eigenvectors to output, symmetry / sibling value numbering"
